@@ -11,7 +11,7 @@ RULE = ("Hypothesis builds an abstract model (1-5 states incl. range-style decla
         "0-5 events of 1-3 T/B/D transitions with integer, decimal, parameter or derived-parameter magnitudes, "
         "rates from the constant/linear/mass-action/saturating/exponential/time-periodic templates, 0-2 explicit "
         "ODE terms, 0-2 derived parameters), a construction route per event (Event, Transition in event=, legacy "
-        "lists, incremental add_*), declaration styles and 3 evaluation points. Oracle: rate vector, state-change "
+        "lists, incremental add_*), declaration styles and 3 evaluation points (all states of ordinary size, or all of order 1e-5 / 1e5); for half of the models with derived parameters or ODE terms a sibling model - same names, rates and magnitudes, other definitions of the derived parameters and ODE terms - is assembled and evaluated first in the same process. Oracle: rate vector, state-change "
         "matrix, pure-ODE vector and right-hand side computed from the abstract model by an independent float "
         "evaluator, compared with (a) the numeric evaluators, (b) the symbolic reports substituted at 30 digits, "
         "(c) the identity ODE - (V*rates + pure) == 0. Non-trivial = >=2 events, or a multi-transition event, or a "
@@ -47,7 +47,8 @@ def strategy(tier, mode=None):
         perm = draw(st.permutations(list(range(len(m["events"])))))
         pts = [draw(S.point(m)) for _ in range(3 if mode != "cython" else 2)]
         return {"model": m, "routes": routes, "perm": list(perm), "points": pts,
-                "backend": "cython" if mode == "cython" else "lambda"}
+                "backend": "cython" if mode == "cython" else "lambda",
+                "sibling": bool(m["derived"] or m["odes"]) and draw(st.booleans())}
     return case()
 
 
@@ -105,6 +106,26 @@ def oracle(case, rec):
     m = case["model"]
     names = ir.state_names(m)
     n_s, n_e = len(names), len(m["events"])
+    if case.get("sibling") and case.get("backend", "lambda") == "lambda":
+        # another model is alive in the same process: identical names, rates and magnitudes, but other definitions of the
+        # derived parameters and ODE terms; it is assembled and evaluated first.  Nothing of it may show in our model.
+        import copy
+        sib = copy.deepcopy(m)
+        for d_ in sib["derived"]:
+            d_["expr"] = ir.mul(ir.C(2), d_["expr"])
+        for o_ in sib["odes"]:
+            o_["expr"] = ir.mul(ir.C(3), o_["expr"])
+        try:
+            sm, _so = render.build(sib, case["routes"], case["perm"])
+            sm.parameters = None if not m["params"] else case["points"][0]["theta"]
+            sm.get_ode_eqn()
+            sm.ode(case["points"][0]["x"], case["points"][0]["t"])
+            if n_e:
+                sm.vMat(case["points"][0]["x"], case["points"][0]["t"])
+                sm.eventRateVector(case["points"][0]["x"], case["points"][0]["t"])
+            rec.label("sibling-model-evaluated-first")
+        except Exception as e:
+            raise PropertyViolation("C01/sibling/" + type(e).__name__, "constructing / evaluating the sibling model raised %r" % (e,), case)
     try:
         model, order = render.build(m, case["routes"], case["perm"], backend=case.get("backend", "lambda"))
     except Exception as e:
